@@ -102,6 +102,7 @@ class ModelEnv:
         self.log = []
         self.sched = None
         self.shared = set()                      # paths whose access is a scheduling point
+        self.access = []                         # every path read or written, in order
         self.sleeps = 0
 
     # ---------------------------------------------------------------- steps / kills / scheduling
@@ -116,6 +117,7 @@ class ModelEnv:
         """returns False when the (dead) process can no longer affect the file system"""
         if self.frozen:
             return False
+        self.access.append(path)
         if self.sched is not None and path is not None and path in self.shared:
             self.sched.yield_point()
         self.step += 1
@@ -130,6 +132,7 @@ class ModelEnv:
         return posixpath.join(*a)
 
     def exists(self, p):
+        self.access.append(p)
         if self.sched is not None and p in self.shared:
             self.sched.yield_point()
         return p in self.files or p in self.dirs
@@ -221,6 +224,7 @@ class ModelEnv:
             c = Content("pickle", None, complete=False)
             env.files[p] = c
             return _Writer(env, p, c)
+        env.access.append(p)
         if env.sched is not None and p in env.shared:
             env.sched.yield_point()
         if p not in env.files:
@@ -232,14 +236,16 @@ class ModelEnv:
 
         class H:
             def __init__(s):
-                s.c = None
+                s.c, s.chunks = None, []
 
             def update(s, buf):
                 if isinstance(buf, _Chunk):
                     s.c = buf.content
+                    s.chunks.append(buf.index)
 
             def hexdigest(s):
-                return Digest(env, s.c)
+                # the digest covers exactly the chunks that were fed in; a file has N_CHUNKS of them
+                return Digest(env, s.c if s.chunks == list(range(N_CHUNKS)) else None)
         return H()
 
     def pickle_dump(self, obj, f, *a, **kw):
@@ -282,9 +288,12 @@ class _Dead:
         pass
 
 
+N_CHUNKS = 3      # every modelled file is read in three chunks (a real payload is larger than one 8 KiB read)
+
+
 class _Chunk:
-    def __init__(self, content):
-        self.content = content
+    def __init__(self, content, index=0):
+        self.content, self.index = content, index
 
     def __bool__(self):
         return True
@@ -295,13 +304,13 @@ class _Chunk:
 
 class _Reader:
     def __init__(self, env, path, content):
-        self.env, self.path, self.content, self.done = env, path, content, False
+        self.env, self.path, self.content, self.pos = env, path, content, 0
 
     def read(self, n=-1):
-        if self.done:
+        if self.pos >= N_CHUNKS:
             return b""
-        self.done = True
-        return _Chunk(self.content)
+        self.pos += 1
+        return _Chunk(self.content, self.pos - 1)
 
     def __enter__(self):
         return self
@@ -457,6 +466,15 @@ def installed(env):
     class _Time:
         sleep = staticmethod(env.sleep)
 
+    class _Shutil:
+        @staticmethod
+        def rmtree(p, ignore_errors=False, **kw):
+            if not env.effect("rmtree", p):
+                return
+            if p not in env.dirs and not ignore_errors:
+                raise FileNotFoundError(p)
+            env.remove_tree(p)
+
     class _NP:
         loadtxt = staticmethod(env.loadtxt)
         float64 = np.float64
@@ -464,7 +482,7 @@ def installed(env):
         def __getattr__(self, k):
             return getattr(np, k)
 
-    repl = {"os": _OS, "path": _Path, "makedirs": env.makedirs, "environ": _Environ, "hashlib": _Hashlib,
+    repl = {"os": _OS, "path": _Path, "makedirs": env.makedirs, "environ": _Environ, "hashlib": _Hashlib, "shutil": _Shutil,
             "pickle": _Pickle, "time": _Time, "np": _NP(), "TemporaryDirectory": env.TemporaryDirectory,
             "urlretrieve": env.urlretrieve, "GzipFile": _Gz, "open": env.open}
     saved = {}
